@@ -37,7 +37,7 @@ def run(ctx):
         hs = loop_headers_containing(orw, bi)
         if hs:
             loops.setdefault(hs[0], []).append(bi)
-    ctx.floor('R02.5', len(loops), 2, 'requeue loops in on_remove_worker')
+    ctx.floor('R02.5', len(loops), 1, 'requeue loops in on_remove_worker')
     for h, sites in sorted(loops.items()):
         # entry of an iteration = the Some edge of the iterator; every path from there back to the header passes a requeue
         body_entries = [x for x in orw.succ[h]]
@@ -53,7 +53,7 @@ def run(ctx):
         ctx.ob('R02.5', f'on_remove_worker|{what} tasks requeued', ok, f'every {what} task of the lost worker is put back into the ready queue in its iteration (a `continue` before the re-queue loses the task)', orw.loc(sites[0]))
     # ---- R02.1
     sites = [(o, b, bi) for o, b, bi in call_sites(prog, INTARRAY + 'from_range') if o.startswith(HQ) and not is_test_util(o)]
-    ctx.floor('R02.1', len(sites), 2, 'from_range call sites')
+    ctx.floor('R02.1', len(sites), 1, 'from_range call sites')
     for o, b, bi in sites:
         t = b.term[bi]
         start_const = t['args'][0][0] == 'k'
@@ -132,7 +132,7 @@ def run(ctx):
             ok = ok2 and callers == {otu.path} and bool(ask_otu)
             how = 'returns need_scheduling=true to on_task_update'
         ctx.ob('R02.4', f'{o.split("::")[-1]}|ready -> wake-up', ok, f'{o.split("::")[-1]} makes a task ready and {how}', b.loc(bi))
-    ctx.floor('R02.4', n, 4, 'add_ready_task sites in the reactor')
+    ctx.floor('R02.4', n, 1, 'add_ready_task sites in the reactor')
     for fn in ('on_new_tasks', 'on_new_worker', 'on_remove_worker'):
         b = prog.body(REACTOR + fn)
         ask = effect_blocks(prog, b, E_ASK)
